@@ -37,10 +37,11 @@ COMPONENTS = {
         "video/labels media -> in-memory frames with a read hook (fault seam)",
         "inference model -> Recorder callable that echoes the batch it is given",
         "OS thread scheduling -> baton scheduler; time.sleep -> virtual clock",
+        "threading.Lock/RLock/Event/Condition/Semaphore created by sleap_nn modules -> simulated primitives (sim_threading seam)",
     ],
 }
 ASSUMPTIONS = [
-    "only queue.Queue, Thread.start/join/is_alive and time.sleep are virtualised; other blocking primitives end in HARNESS-ERROR",
+    "queue.Queue, Thread.start/join/is_alive, time.sleep and the threading primitives (Lock, RLock, Event, Condition, Semaphore) that sleap_nn code creates at run time are virtualised; primitives created at import time or inside third-party code are real",
     "schedules, fault positions and configurations are sampled by seed, not enumerated",
 ]
 TIERS = {
